@@ -88,7 +88,7 @@ class NP:
 
     def asarray(self, obj, dtype=None, **kw):
         if isinstance(obj, np.ndarray) and dtype is None:
-            return obj
+            return np.asarray(obj)
         return self.array(obj, dtype=dtype, **kw)
 
     def zeros(self, shape, dtype=None, **kw):
